@@ -1,10 +1,14 @@
 #!/bin/sh
-# Runs the pinned suite of /repo (guard off) and checks: 2995 passed, only the
-# baseline's always-failing yash-cli::scripted_test entries fail.
+# Runs the pinned suite of /repo (guard off) and checks: at least the 2995
+# baseline tests pass (fix: commits may add tests), and only the baseline's
+# always-failing yash-cli::scripted_test entries fail.
 cd "${1:-/repo}" || exit 2
 out=$(cargo nextest run --workspace --no-fail-fast --offline 2>&1)
 echo "$out" | grep -E "Summary"
 other=$(echo "$out" | grep " FAIL " | grep -v "yash-cli::scripted_test" | sort -u)
 if [ -n "$other" ]; then echo "UNEXPECTED FAILURES:"; echo "$other"; exit 1; fi
-echo "$out" | grep -q "2995 passed" || { echo "pass count differs"; exit 1; }
+n=$(echo "$out" | grep -E "Summary" | grep -oE "[0-9]+ passed" | grep -oE "[0-9]+")
+f=$(echo "$out" | grep -E "Summary" | grep -oE "[0-9]+ failed" | grep -oE "[0-9]+")
+[ "${n:-0}" -ge 2995 ] || { echo "pass count dropped: $n"; exit 1; }
+[ "${f:-0}" -le 99 ] || { echo "failure count rose: $f"; exit 1; }
 echo OK
